@@ -53,18 +53,26 @@ def program(seed):
 
 
 def worker(arg):
-    seed, souffle = arg
+    seed, souffle = arg[0], arg[1]
+    compiled_mode = len(arg) > 2 and arg[2]
     rng = random.Random(seed ^ 0x5bd1e995)
     text, exp, total = program(seed)
     rec = dict(seed=seed, hash=runner.prog_hash(text), features=["autoinc"], counts={})
     d = tmpl.setup_case("C22", seed, text)
     rec["dir"] = d
+    runfn = tmpl.make_runner(souffle, d, compiled_mode)
+    if runfn is None:
+        rec.update(status="skip", reason="compile-failed (C02)")
+        return rec
+    if compiled_mode:
+        rec["features"] = list(rec["features"]) + ["compiled"]
+        rec["counts"]["compiled_cases"] = 1
     viols = []
     active = 0
     for j in [1] + rng.sample(JS, 3):
         od = "j%d" % j
         env = tmpl.sched_env(rng, d, od) if j > 1 else None
-        r, ck = tmpl.run(souffle, d, args=["-j%d" % j], env=env, outdir=od)
+        r, ck = runfn(j, od, env)
         rec["counts"]["runs"] = rec["counts"].get("runs", 0) + 1
         if ck is not None:
             viols.append(("crash:" + ck, "-j%d died (%s)\n%s\n%s" % (j, ck, r.err[-2000:], text)))
@@ -116,9 +124,11 @@ def check(tier, seed):
     res = Result("exploration")
     res.rule = RULE
     base = seed * 1000000 + (0 if tier == "quick" else 50000) + 220000
-    recs = runner.pmap(worker, [(base + i, t["plain"]) for i in range(n)] + [(base + n + i, t["san"]) for i in range(nsan)], nproc=6)
+    ncomp = 4 if tier == "quick" else 48
+    recs = runner.pmap(worker, [(base + 900000 + i, t["plain"], True) for i in range(ncomp)] + [(base + i, t["plain"]) for i in range(n)] +
+                       [(base + n + i, t["san"]) for i in range(nsan)], nproc=6)
     pc.collect("C22", recs, res)
     res.min_nontrivial = n // 10
-    res.assumptions = ["interpreter only", "interleavings are those the OS scheduler plus injected yields/spins produce, not all interleavings",
+    res.assumptions = ["interpreter, plus a compile-bound sample of executables (4 quick / 48 thorough)", "interleavings are those the OS scheduler plus injected yields/spins produce, not all interleavings",
                        "template programs (non-recursive rules; souffle rejects autoinc() in recursive rules)"]
     return res
